@@ -141,6 +141,7 @@ type regProbe struct {
 	// reference dispatch
 	c265    *string           // CBOR: text under key 265 (nil = absent)
 	weak    bool              // the property leaves the dispatch of this document open
+	payload []byte            // cose: the claims inside the envelope
 	members map[string]string // JSON: profile member -> string value ("\x00nonstring" for non-string)
 }
 
@@ -305,8 +306,25 @@ func buildRegProbes(names []string) []regProbe {
 			add(regProbe{name: "cbor/both", ser: "cbor", doc: nb, declares: []string{psatoken.Profile1Name, psatoken.Profile2Name}, weak: true})
 		}
 	}
+	// every CBOR probe also travels inside a COSE_Sign1 envelope (dispatch does not
+	// look at the signature) and is then decoded by ONE Evidence reused for the whole run
+	n := len(out)
+	for i := 0; i < n; i++ {
+		if out[i].ser != "cbor" {
+			continue
+		}
+		p := out[i]
+		p.payload = p.doc
+		p.doc = assembleSign1([]byte{0xa1, 0x01, 0x26}, nil, p.payload, make([]byte, 64))
+		p.ser = "cose"
+		p.name = "cose(" + p.name + ")"
+		out = append(out, p)
+	}
 	return out
 }
+
+// regReusedEv is the verifier-side Evidence that decodes every COSE probe of a run.
+var regReusedEv *psatoken.Evidence
 
 // ---- outcome of one dispatch
 
@@ -333,12 +351,16 @@ func dispatch(p *regProbe) (out dispOutcome) {
 	var c psatoken.IClaims
 	var err error
 	buf := append([]byte{}, p.doc...)
-	if p.ser == "cbor" {
+	switch p.ser {
+	case "cbor":
 		c, err = psatoken.DecodeClaimsFromCBOR(buf)
-	} else {
+	case "cose":
+		err = regReusedEv.UnmarshalCOSE(buf)
+		c = regReusedEv.Claims
+	default:
 		c, err = psatoken.DecodeClaimsFromJSON(buf)
 	}
-	if err != nil {
+	if err != nil || c == nil {
 		return dispOutcome{}
 	}
 	return dispOutcome{ok: true, typ: fmt.Sprintf("%T", c), obs: getterObs(c), valid: safely(func() string { return ec(c.Validate()) })}
@@ -352,9 +374,16 @@ func dispatchValidating(p *regProbe) (ok bool, c psatoken.IClaims) {
 	}()
 	var err error
 	buf := append([]byte{}, p.doc...)
-	if p.ser == "cbor" {
+	switch p.ser {
+	case "cbor":
 		c, err = psatoken.DecodeAndValidateClaimsFromCBOR(buf)
-	} else {
+	case "cose":
+		var e *psatoken.Evidence
+		e, err = psatoken.DecodeAndValidateEvidenceFromCOSE(buf)
+		if err == nil && e != nil {
+			c = e.Claims
+		}
+	default:
 		c, err = psatoken.DecodeAndValidateClaimsFromJSON(buf)
 	}
 	return err == nil, c
@@ -494,6 +523,7 @@ func (regWorld) Exec(prop string, t *Trace) *Result {
 		return res
 	}
 	psatoken.VerifRegistryRestore(pristineReg)
+	regReusedEv = &psatoken.Evidence{}
 	simProfilesRegistered = false
 	simrt.OrderFn = nil
 	disarmCodec()
@@ -554,7 +584,7 @@ func (regWorld) Exec(prop string, t *Trace) *Result {
 		if p.weak {
 			return "", false, false
 		}
-		if p.ser == "cbor" {
+		if p.ser == "cbor" || p.ser == "cose" {
 			if p.c265 == nil {
 				return "p1", true, false
 			}
@@ -605,7 +635,7 @@ func (regWorld) Exec(prop string, t *Trace) *Result {
 		return "", false, false
 	}
 	nameOfKind := func(p *regProbe, kind string) string {
-		if p.ser == "cbor" {
+		if p.ser == "cbor" || p.ser == "cose" {
 			if p.c265 != nil {
 				return *p.c265
 			}
@@ -661,9 +691,12 @@ func (regWorld) Exec(prop string, t *Trace) *Result {
 				return
 			}
 			buf := append([]byte{}, p.doc...)
-			if p.ser == "cbor" {
+			switch p.ser {
+			case "cbor":
 				err = u.UnmarshalCBOR(buf)
-			} else {
+			case "cose":
+				err = u.UnmarshalCBOR(append([]byte{}, p.payload...))
+			default:
 				err = u.UnmarshalJSON(buf)
 			}
 			if err != nil {
@@ -885,7 +918,10 @@ func (regWorld) Exec(prop string, t *Trace) *Result {
 				default:
 					p := &probes[op.A%len(probes)]
 					buf := append([]byte{}, p.doc...) // one caller buffer, decoded twice
-					if p.ser == "cbor" {
+					if p.ser == "cose" {
+						buf = append([]byte{}, p.payload...)
+					}
+					if p.ser == "cbor" || p.ser == "cose" {
 						a, _ = psatoken.DecodeClaimsFromCBOR(buf)
 						b, _ = psatoken.DecodeClaimsFromCBOR(buf)
 					} else {
@@ -957,7 +993,10 @@ func runRegIsolated(prop string, tr *Trace) *Result {
 	cmd.Stdin = bytes.NewReader(tj)
 	var so, se bytes.Buffer
 	cmd.Stdout, cmd.Stderr = &so, &se
-	err := cmd.Run()
+	err := startWithRetry(cmd)
+	if err == nil {
+		err = cmd.Wait()
+	}
 	if idx := strings.LastIndex(so.String(), "RESULT "); idx >= 0 {
 		var w resultWire
 		line := so.String()[idx+7:]
